@@ -133,7 +133,7 @@ theorem api_step_alive (ac : ApiCfg) (s : Sys) (op : Op) (f : List Nat) (m : MOp
     | rszv x n arg =>
       cases arg with
       | ext v => injection h with h; subst h; show c ∈ A ↔ Sys.isAlive _ c = true; exact Iff.trans (hA c) (same _ rfl).symm
-      | self i => cases h
+      | self i => injection h with h; subst h; show c ∈ A ↔ Sys.isAlive _ c = true; exact Iff.trans (hA c) (same _ rfl).symm
     | rsv x n => injection h with h; subst h; show c ∈ A ↔ Sys.isAlive _ c = true; exact Iff.trans (hA c) (same _ rfl).symm
     | stf x => injection h with h; subst h; show c ∈ A ↔ Sys.isAlive _ c = true; exact Iff.trans (hA c) (same _ rfl).symm
     | asn x n v => injection h with h; subst h; show c ∈ A ↔ Sys.isAlive _ c = true; exact Iff.trans (hA c) (same _ rfl).symm
